@@ -19,6 +19,10 @@ def elab(ctx, mod, cls, args=None, kwargs=None, overrides=None, hasattrs=None, c
         d, el = elaborate(ctx.repo, mod, cls, args, kwargs, overrides, hasattrs, calls, opaque)
     except KeyError as e:
         raise AnalysisError(ctx.prop, "anchor vanished: %s" % e)
+    except Exception as e:
+        if type(e).__name__ == "Budget":
+            raise AnalysisError(ctx.prop, "%s.%s: %s - the generator does too much plain-Python work at elaboration time for this analyser" % (mod, cls, e))
+        raise
     ctx.stat("classes_elaborated")
     ctx.stat("leaves", len(d.all_leaves()))
     ctx.stat("fsm_states", sum(len(f.states) for f in d.fsms.values()))
